@@ -46,6 +46,30 @@ let tree_of_string s =
   tree_of_list (List.map (fun e -> match String.index_opt e '=' with
     | Some i -> (dir_of (String.sub e 0 i), content_list (String.sub e (i + 1) (String.length e - i - 1)))
     | None -> failwith ("bad tree entry " ^ e)) (split ';' s))
+(* the per-member syscall shape: the calls on the file that ends up as `target`, followed backwards through its
+   renames to its createTemp; a rename is followed by "syncdir" when the directory it moved the file into is
+   fsync'ed before the file moves again *)
+let shape (tr : devent list) (target : positive list * positive) : string =
+  let rec go evs cur seen out = match evs with
+    | [] -> out
+    | e :: rest ->
+      if e.de_res <> None then go rest cur seen out else
+      (match e.de_op, e.de_p, e.de_q with
+       | DSyncDir, PDir d, _ -> go rest cur (d :: seen) out
+       | DRename, PFile (d1, n1), PFile (d2, n2) when (d2, n2) = cur ->
+         let out = if List.mem d2 seen then "rename" :: "syncdir" :: out else "rename" :: out in
+         go rest (d1, n1) [] out
+       | DCreateTemp, PFile (d, n), _ when (d, n) = cur -> "createtemp" :: out
+       | DEncode, PFile (d, n), _ when (d, n) = cur ->
+         go rest cur seen (match out with "encode" :: _ -> out | _ -> "encode" :: out)
+       | DChmod, PFile (d, n), _ when (d, n) = cur -> go rest cur seen ("chmod" :: out)
+       | DSync, PFile (d, n), _ when (d, n) = cur -> go rest cur seen ("sync" :: out)
+       | _ -> go rest cur seen out) in
+  String.concat " " (go tr target [] [])   (* tr is latest-first, as dtr *)
+let member_of s = match String.split_on_char ':' s with
+  | ["i"] -> MInvalid
+  | ["v"; raw; n; d] -> MValid (pos_of_hex_exn raw, pos_of_hex_exn n, bytes_of_hex d)
+  | _ -> failwith ("bad member " ^ s)
 let eflag (e : oerr) = if e = None then "e0" else "e1"
 
 let dispatch fn args = match fn, args with
@@ -53,6 +77,14 @@ let dispatch fn args = match fn, args with
     let ((e, _), _) = run_gob (fault f1) (fault f2) (nat_of_int (int_of_string ("0x" ^ kp))) (pos_of_hex_exn bound)
                         (tree_of_string init) (dir_of d) (pos_of_hex_exn n) (bytes_of_hex data) in
     eflag e
+  | "shape", ["collection"; bound; init; f; ms; n] ->
+    let (_, w) = run_collection None None (nat_of_int 0) (pos_of_hex_exn bound) (tree_of_string init) (dir_of f)
+                   (List.map member_of (split ',' ms)) in
+    shape w.dtr (dir_of f, pos_of_hex_exn n)
+  | "shape", ["gob"; bound; init; d; n; data] ->
+    let (_, w) = run_gob None None (nat_of_int 0) (pos_of_hex_exn bound) (tree_of_string init) (dir_of d)
+                   (pos_of_hex_exn n) (bytes_of_hex data) in
+    shape w.dtr (dir_of d, pos_of_hex_exn n)
   | "fontserr", [f1; f2; init; f; sc; junk; sok; names; rok] ->
     if junk <> "" then failwith "junk not supported here" else
     let (r, _) = run_fonts (fault f1) (fault f2) (tree_of_string init) (dir_of f) (content_of_list (content_list sc))
